@@ -25,6 +25,7 @@ type route struct{ face, origin, cost, flags uint64 }
 type inst struct {
 	routes map[string][]*route // reference: prefix -> routes (insertion order irrelevant)
 	cmdErr string              // a management command of this step was not answered with 200
+	scratch []byte             // reuse universes: the caller's decode buffer, shared by all calls
 }
 
 type universe struct {
@@ -36,6 +37,10 @@ type universe struct {
 	// mgmt: routes are registered / unregistered by rib/register and rib/unregister commands handed
 	// to the real management module (fw/mgmt/rib.go) as received from the face itself
 	mgmt bool
+	// reuse: every name handed to the RIB is decoded (NameFromBytes) from ONE buffer the caller
+	// re-uses for its next call and scribbles over as soon as the call has returned - the way a
+	// caller decoding commands from a receive buffer behaves. The RIB must own its keys.
+	reuse bool
 }
 
 type sys struct {
@@ -62,6 +67,27 @@ func nm(s string) enc.Name {
 
 func flagStr(f uint64) string {
 	return [...]string{"-", "CI", "CAP", "CI+CAP"}[f&3]
+}
+
+// arg returns the name to pass to the RIB for prefix p, and a function to call after the RIB call.
+func (u universe) arg(in *inst, p string) (enc.Name, func()) {
+	if !u.reuse {
+		return nm(p), func() {}
+	}
+	if in.scratch == nil {
+		in.scratch = make([]byte, 256)
+	}
+	b := nm(p).Bytes()
+	k := copy(in.scratch, b)
+	n, err := enc.NameFromBytes(in.scratch[:k])
+	if err != nil {
+		panic("HARNESS-BUG: " + err.Error())
+	}
+	return n, func() {
+		for i := range in.scratch {
+			in.scratch[i] = 0xEE
+		}
+	}
 }
 
 func newSys(u universe, fib string) *sys {
@@ -136,7 +162,9 @@ func newSys(u universe, fib string) *sys {
 							continue
 						}
 						add(fmt.Sprintf("Reg(%s,f%d,o%d,c%d,%s)", p, f, o, c, flagStr(fl)), func(in *inst) {
-							table.Rib.AddEncRoute(nm(p), &table.Route{FaceID: f, Origin: o, Cost: c, Flags: fl})
+							name, done := u.arg(in, p)
+							table.Rib.AddEncRoute(name, &table.Route{FaceID: f, Origin: o, Cost: c, Flags: fl})
+							done()
 							for _, r := range in.routes[p] {
 								if r.face == f && r.origin == o {
 									r.cost, r.flags = c, fl
@@ -164,7 +192,9 @@ func newSys(u universe, fib string) *sys {
 							in.cmdErr = fmt.Sprintf("rib/unregister answered %d", st)
 						}
 					} else {
-						table.Rib.RemoveRouteEnc(nm(p), f, o)
+						name, done := u.arg(in, p)
+						table.Rib.RemoveRouteEnc(name, f, o)
+						done()
 					}
 					rs := in.routes[p]
 					for i, r := range rs {
@@ -435,6 +465,8 @@ var universes = map[string]universe{
 	// (a capture route displacing an inherited face); distinct costs per flag set so that a stale cost shows
 	"swap": {prefixes: []string{"/a", "/a/b"}, faces: []uint64{1, 2, 3}, origins: []uint64{0}, costs: []uint64{1}, flags: []uint64{ci, cap_, 0}},
 	// the same operations issued as rib/register / rib/unregister commands through the real management module
+	// the caller decodes every name from one re-used buffer (see universe.reuse); siblings and a nested pair
+	"reuse": {prefixes: []string{"/a", "/a/b", "/x/y"}, faces: []uint64{1, 2}, origins: []uint64{0}, costs: []uint64{1}, flags: []uint64{ci, cap_}, reuse: true},
 	"mgmt": {prefixes: []string{"/a", "/a/b"}, faces: []uint64{1, 2}, origins: []uint64{0, 128}, costs: []uint64{0, 5}, flags: []uint64{0, ci, cap_, ci | cap_}, mgmt: true},
 	// the full alphabet of the design
 	"full": {prefixes: []string{"/", "/a", "/a/b", "/a/b/c", "/a/x"}, faces: []uint64{1, 2}, origins: []uint64{0, 128}, costs: []uint64{1, 5}, flags: []uint64{0, ci, cap_, ci | cap_}},
@@ -470,6 +502,7 @@ func main() {
 				c = append(c, explore.Config{Name: "mid " + f, MaxDepth: d2, MaxDev: -1})
 				c = append(c, explore.Config{Name: "full " + f, MaxDepth: d3, MaxDev: -1})
 				c = append(c, explore.Config{Name: "mgmt " + f, MaxDepth: d3, MaxDev: -1})
+				c = append(c, explore.Config{Name: "reuse " + f, MaxDepth: d2, MaxDev: -1})
 			}
 			ad := 3
 			if th {
@@ -489,6 +522,7 @@ func main() {
 		},
 		Rule: "BFS over histories of Rib.AddEncRoute / RemoveRouteEnc / CleanUpFace on the real RIB over the real FIB (tree and hash table); after every transition FindNextHopsEnc for every name of the universe (every prefix, every gap prefix, one unknown component below each, the root, an unrelated name), the FIB listing and the RIB listing are compared with a from-scratch flattening of the harness's route multiset; states de-duplicated on route multiset + RIB tree shape + FIB private shape",
 		Assumptions: []string{
+			"reuse configurations: a caller may re-use the memory of a name it passed to the RIB once the call has returned (the tables own their keys, as the repository's table code does by cloning at insertion)",
 			"FIB entries at route-less prefixes are tolerated as long as they are invisible to every lookup (equal to the flattening of the longest routed prefix); structural leaks are C08's business",
 			"equal canonical state (route multiset + RIB node dump + FIB dump) implies equal futures",
 		},
